@@ -229,10 +229,10 @@ where subsShapes (inRange : Bool) : Subs → List String
 def opShape : Op → String
   | .gate g _ =>
     let sh := gateShapes false g
-    (["multistage-in-range", "identity-in-range", "kron-in-range", "empty-loop-body"].find? sh.contains).getD "plain"
+    (["multistage-in-range", "kron-in-range", "empty-loop-body"].find? sh.contains).getD "plain"
   | .cond _ _ g _ =>
     let sh := gateShapes true g
-    (["multistage-in-range", "identity-in-range", "kron-in-range", "empty-loop-body"].find? sh.contains).getD "plain"
+    (["multistage-in-range", "kron-in-range", "empty-loop-body"].find? sh.contains).getD "plain"
   | .barrier _ => "barrier"
   | .measure .. | .measureAll .. => "measure"
   | .reset _ | .resetAll => "reset"
